@@ -74,8 +74,9 @@ def check_trace(trace, S):
     if not ref_rows:
         return viols, ('nochange',), 0
     traj = concretise.vib_traj(A, L, M6, 1e-15)
+    full = concretise.vib_traj(A + 2, L, M6, 1e-15, species=['Li'] * A + ['S', 'P'])
     try:
-        tr = impl.make_transitions(trace, S, trajectory=traj, diff_trajectory=traj)
+        tr = impl.make_transitions(trace, S, trajectory=full, diff_trajectory=traj)
     except Exception as e:  # noqa: BLE001 (C03's business)
         return viols, ('events-raise',), 0
     rows = impl.event_rows(tr.events)
@@ -98,6 +99,8 @@ def check_trace(trace, S):
         if len(parts) != n:
             viols.append(('split-wrong-number-of-parts', f'n_parts={n} got {len(parts)}'))
             continue
+        if any(p.n_floating != A or len(p.diff_trajectory.species) != A or len(p.trajectory.species) != A + 2 for p in parts):
+            viols.append(('split-parts-mix-up-full-and-diffusing-trajectory', f'n_parts={n}: n_floating {[p.n_floating for p in parts]} expected {A}'))
         cat = np.concatenate([np.asarray(p.states) for p in parts], axis=0)
         cat_i = np.concatenate([np.asarray(p.inner_states) for p in parts], axis=0)
         if cat.shape != states.shape or not np.array_equal(cat, states) or not np.array_equal(cat_i, inner):
